@@ -2,7 +2,7 @@ SPECIFICATION Spec
 CONSTANTS
   MaxLen = 2
   Kinds <- AllKinds
-  Outcomes <- AllSix
+  Outcomes <- AllSeven
   Tags <- BothTags
   MayToggle = TRUE
   MayAbort = TRUE
